@@ -190,8 +190,37 @@ func getFileNameForType(typePrefix string, headerType HeaderFooterType) string {
 	}
 }
 
+// validHeaderFooterType 报告类型是否为三种页眉页脚类型之一（default、first、even）
+func validHeaderFooterType(headerType HeaderFooterType) bool {
+	return headerType == HeaderFooterTypeDefault || headerType == HeaderFooterTypeFirst || headerType == HeaderFooterTypeEven
+}
+
+// headerFooterRelationshipID 返回指向给定页眉/页脚部件的文档关系ID。
+// 同一类型的页眉/页脚再次定义时会覆盖同一个部件（如 header1.xml），此时必须复用该部件已有的关系，
+// 否则每次调用都会在 document.xml.rels 中留下一个指向同一目标的多余关系；没有时才用新的ID追加一个关系。
+func (d *Document) headerFooterRelationshipID(relType, fileName string) string {
+	for i := range d.documentRelationships.Relationships {
+		if d.documentRelationships.Relationships[i].Type == relType && d.documentRelationships.Relationships[i].Target == fileName {
+			return d.documentRelationships.Relationships[i].ID
+		}
+	}
+
+	id := d.nextDocumentRelationshipID() // rId1保留给styles
+	d.documentRelationships.Relationships = append(d.documentRelationships.Relationships, Relationship{
+		ID:     id,
+		Type:   relType,
+		Target: fileName,
+	})
+	return id
+}
+
 // AddHeader 添加页眉
 func (d *Document) AddHeader(headerType HeaderFooterType, text string) error {
+	// 其他类型没有对应的部件名（会覆盖默认类型的部件）且不是合法的 w:type 值
+	if !validHeaderFooterType(headerType) {
+		return fmt.Errorf("无效的页眉类型: %s", headerType)
+	}
+
 	header := createStandardHeader()
 
 	// 创建页眉段落
@@ -206,9 +235,6 @@ func (d *Document) AddHeader(headerType HeaderFooterType, text string) error {
 		paragraph.Runs = append(paragraph.Runs, run)
 	}
 	header.Paragraphs = append(header.Paragraphs, paragraph)
-
-	// 生成关系ID
-	headerID := d.nextDocumentRelationshipID() // +2因为rId1保留给styles
 
 	// 序列化页眉
 	headerXML, err := xml.MarshalIndent(header, "", "  ")
@@ -226,13 +252,8 @@ func (d *Document) AddHeader(headerType HeaderFooterType, text string) error {
 	// 存储页眉内容
 	d.parts[headerPartName] = fullXML
 
-	// 添加关系到文档关系
-	relationship := Relationship{
-		ID:     headerID,
-		Type:   "http://schemas.openxmlformats.org/officeDocument/2006/relationships/header",
-		Target: fileName,
-	}
-	d.documentRelationships.Relationships = append(d.documentRelationships.Relationships, relationship)
+	// 添加关系到文档关系（重新定义同一类型时复用该部件已有的关系）
+	headerID := d.headerFooterRelationshipID("http://schemas.openxmlformats.org/officeDocument/2006/relationships/header", fileName)
 
 	// 添加内容类型
 	d.addContentType(headerPartName, "application/vnd.openxmlformats-officedocument.wordprocessingml.header+xml")
@@ -245,6 +266,11 @@ func (d *Document) AddHeader(headerType HeaderFooterType, text string) error {
 
 // AddFooter 添加页脚
 func (d *Document) AddFooter(footerType HeaderFooterType, text string) error {
+	// 其他类型没有对应的部件名（会覆盖默认类型的部件）且不是合法的 w:type 值
+	if !validHeaderFooterType(footerType) {
+		return fmt.Errorf("无效的页脚类型: %s", footerType)
+	}
+
 	footer := createStandardFooter()
 
 	// 创建页脚段落
@@ -259,9 +285,6 @@ func (d *Document) AddFooter(footerType HeaderFooterType, text string) error {
 		paragraph.Runs = append(paragraph.Runs, run)
 	}
 	footer.Paragraphs = append(footer.Paragraphs, paragraph)
-
-	// 生成关系ID
-	footerID := d.nextDocumentRelationshipID() // +2因为rId1保留给styles
 
 	// 序列化页脚
 	footerXML, err := xml.MarshalIndent(footer, "", "  ")
@@ -279,13 +302,8 @@ func (d *Document) AddFooter(footerType HeaderFooterType, text string) error {
 	// 存储页脚内容
 	d.parts[footerPartName] = fullXML
 
-	// 添加关系到文档关系
-	relationship := Relationship{
-		ID:     footerID,
-		Type:   "http://schemas.openxmlformats.org/officeDocument/2006/relationships/footer",
-		Target: fileName,
-	}
-	d.documentRelationships.Relationships = append(d.documentRelationships.Relationships, relationship)
+	// 添加关系到文档关系（重新定义同一类型时复用该部件已有的关系）
+	footerID := d.headerFooterRelationshipID("http://schemas.openxmlformats.org/officeDocument/2006/relationships/footer", fileName)
 
 	// 添加内容类型
 	d.addContentType(footerPartName, "application/vnd.openxmlformats-officedocument.wordprocessingml.footer+xml")
@@ -298,6 +316,11 @@ func (d *Document) AddFooter(footerType HeaderFooterType, text string) error {
 
 // AddHeaderWithPageNumber 添加带页码的页眉
 func (d *Document) AddHeaderWithPageNumber(headerType HeaderFooterType, text string, showPageNum bool) error {
+	// 其他类型没有对应的部件名（会覆盖默认类型的部件）且不是合法的 w:type 值
+	if !validHeaderFooterType(headerType) {
+		return fmt.Errorf("无效的页眉类型: %s", headerType)
+	}
+
 	header := createStandardHeader()
 
 	// 创建页眉段落
@@ -339,9 +362,6 @@ func (d *Document) AddHeaderWithPageNumber(headerType HeaderFooterType, text str
 
 	header.Paragraphs = append(header.Paragraphs, paragraph)
 
-	// 生成关系ID
-	headerID := d.nextDocumentRelationshipID() // +2因为rId1保留给styles
-
 	// 序列化页眉
 	headerXML, err := xml.MarshalIndent(header, "", "  ")
 	if err != nil {
@@ -358,13 +378,8 @@ func (d *Document) AddHeaderWithPageNumber(headerType HeaderFooterType, text str
 	// 存储页眉内容
 	d.parts[headerPartName] = fullXML
 
-	// 添加关系到文档关系
-	relationship := Relationship{
-		ID:     headerID,
-		Type:   "http://schemas.openxmlformats.org/officeDocument/2006/relationships/header",
-		Target: fileName,
-	}
-	d.documentRelationships.Relationships = append(d.documentRelationships.Relationships, relationship)
+	// 添加关系到文档关系（重新定义同一类型时复用该部件已有的关系）
+	headerID := d.headerFooterRelationshipID("http://schemas.openxmlformats.org/officeDocument/2006/relationships/header", fileName)
 
 	// 添加内容类型
 	d.addContentType(headerPartName, "application/vnd.openxmlformats-officedocument.wordprocessingml.header+xml")
@@ -377,6 +392,11 @@ func (d *Document) AddHeaderWithPageNumber(headerType HeaderFooterType, text str
 
 // AddFooterWithPageNumber 添加带页码的页脚
 func (d *Document) AddFooterWithPageNumber(footerType HeaderFooterType, text string, showPageNum bool) error {
+	// 其他类型没有对应的部件名（会覆盖默认类型的部件）且不是合法的 w:type 值
+	if !validHeaderFooterType(footerType) {
+		return fmt.Errorf("无效的页脚类型: %s", footerType)
+	}
+
 	footer := createStandardFooter()
 
 	// 创建页脚段落
@@ -418,9 +438,6 @@ func (d *Document) AddFooterWithPageNumber(footerType HeaderFooterType, text str
 
 	footer.Paragraphs = append(footer.Paragraphs, paragraph)
 
-	// 生成关系ID
-	footerID := d.nextDocumentRelationshipID() // +2因为rId1保留给styles
-
 	// 序列化页脚
 	footerXML, err := xml.MarshalIndent(footer, "", "  ")
 	if err != nil {
@@ -437,13 +454,8 @@ func (d *Document) AddFooterWithPageNumber(footerType HeaderFooterType, text str
 	// 存储页脚内容
 	d.parts[footerPartName] = fullXML
 
-	// 添加关系到文档关系
-	relationship := Relationship{
-		ID:     footerID,
-		Type:   "http://schemas.openxmlformats.org/officeDocument/2006/relationships/footer",
-		Target: fileName,
-	}
-	d.documentRelationships.Relationships = append(d.documentRelationships.Relationships, relationship)
+	// 添加关系到文档关系（重新定义同一类型时复用该部件已有的关系）
+	footerID := d.headerFooterRelationshipID("http://schemas.openxmlformats.org/officeDocument/2006/relationships/footer", fileName)
 
 	// 添加内容类型
 	d.addContentType(footerPartName, "application/vnd.openxmlformats-officedocument.wordprocessingml.footer+xml")
@@ -568,6 +580,11 @@ func createFormattedParagraph(text string, format *TextFormat, alignment Alignme
 //		Alignment: document.AlignCenter,
 //	})
 func (d *Document) AddFormattedHeader(headerType HeaderFooterType, config *HeaderFooterConfig) error {
+	// 其他类型没有对应的部件名（会覆盖默认类型的部件）且不是合法的 w:type 值
+	if !validHeaderFooterType(headerType) {
+		return fmt.Errorf("无效的页眉类型: %s", headerType)
+	}
+
 	header := createStandardHeader()
 
 	// 创建格式化页眉段落
@@ -576,9 +593,6 @@ func (d *Document) AddFormattedHeader(headerType HeaderFooterType, config *Heade
 	}
 	paragraph := createFormattedParagraph(config.Text, config.Format, config.Alignment)
 	header.Paragraphs = append(header.Paragraphs, paragraph)
-
-	// 生成关系ID
-	headerID := d.nextDocumentRelationshipID() // +2因为rId1保留给styles
 
 	// 序列化页眉
 	headerXML, err := xml.MarshalIndent(header, "", "  ")
@@ -596,13 +610,8 @@ func (d *Document) AddFormattedHeader(headerType HeaderFooterType, config *Heade
 	// 存储页眉内容
 	d.parts[headerPartName] = fullXML
 
-	// 添加关系到文档关系
-	relationship := Relationship{
-		ID:     headerID,
-		Type:   "http://schemas.openxmlformats.org/officeDocument/2006/relationships/header",
-		Target: fileName,
-	}
-	d.documentRelationships.Relationships = append(d.documentRelationships.Relationships, relationship)
+	// 添加关系到文档关系（重新定义同一类型时复用该部件已有的关系）
+	headerID := d.headerFooterRelationshipID("http://schemas.openxmlformats.org/officeDocument/2006/relationships/header", fileName)
 
 	// 添加内容类型
 	d.addContentType(headerPartName, "application/vnd.openxmlformats-officedocument.wordprocessingml.header+xml")
@@ -633,6 +642,11 @@ func (d *Document) AddFormattedHeader(headerType HeaderFooterType, config *Heade
 //		Alignment: document.AlignCenter,
 //	})
 func (d *Document) AddFormattedFooter(footerType HeaderFooterType, config *HeaderFooterConfig) error {
+	// 其他类型没有对应的部件名（会覆盖默认类型的部件）且不是合法的 w:type 值
+	if !validHeaderFooterType(footerType) {
+		return fmt.Errorf("无效的页脚类型: %s", footerType)
+	}
+
 	footer := createStandardFooter()
 
 	// 创建格式化页脚段落
@@ -641,9 +655,6 @@ func (d *Document) AddFormattedFooter(footerType HeaderFooterType, config *Heade
 	}
 	paragraph := createFormattedParagraph(config.Text, config.Format, config.Alignment)
 	footer.Paragraphs = append(footer.Paragraphs, paragraph)
-
-	// 生成关系ID
-	footerID := d.nextDocumentRelationshipID() // +2因为rId1保留给styles
 
 	// 序列化页脚
 	footerXML, err := xml.MarshalIndent(footer, "", "  ")
@@ -661,13 +672,8 @@ func (d *Document) AddFormattedFooter(footerType HeaderFooterType, config *Heade
 	// 存储页脚内容
 	d.parts[footerPartName] = fullXML
 
-	// 添加关系到文档关系
-	relationship := Relationship{
-		ID:     footerID,
-		Type:   "http://schemas.openxmlformats.org/officeDocument/2006/relationships/footer",
-		Target: fileName,
-	}
-	d.documentRelationships.Relationships = append(d.documentRelationships.Relationships, relationship)
+	// 添加关系到文档关系（重新定义同一类型时复用该部件已有的关系）
+	footerID := d.headerFooterRelationshipID("http://schemas.openxmlformats.org/officeDocument/2006/relationships/footer", fileName)
 
 	// 添加内容类型
 	d.addContentType(footerPartName, "application/vnd.openxmlformats-officedocument.wordprocessingml.footer+xml")
